@@ -151,7 +151,7 @@ open Cao Cao.Compiler Cao.Vm
 def natStep (args : List String) : String :=
   match args with
   | ["register", name] => if name.startsWith "__" then "err:InvalidArgument" else "ok"
-  | "call" :: m :: _ =>
+  | "call" :: m :: rest =>
     match Module.ofTok? m with
     | none => "bad-op"
     | some m =>
@@ -159,7 +159,7 @@ def natStep (args : List String) : String :=
       | .error e => "compile-error:" ++ (match e with | .err k _ => k.name | .panic w => w)
       | .ok prog =>
         let p := Prog.ofProgram prog
-        let (s', e) := run p 5000 (VmState.fresh {})
+        let (s', e) := run p (kv rest "budget" 5000) (VmState.fresh {})
         showOutcome p s' e
   | _ => "bad-op"
 
